@@ -186,14 +186,18 @@ class _EndCv:
         self.n += 1
         if self.n > 1:
             raise NonTermination("waits again although the connection has ended: nothing will ever notify it")
+        self.notified = False
         self.lock.release()
         try:
             self.on_first()
         finally:
             self.lock.acquire()
+        if not self.notified:
+            # a wake-up is only granted if the real shutdown path performs the notification
+            raise NonTermination("the connection ended without notifying the condition a blocked sender waits on")
 
     def notify(self):
-        pass
+        self.notified = True
 
     notify_all = notify
 
